@@ -2208,3 +2208,26 @@ func (e EntryAlt) AtomsAt(site ssa.Instruction) []Atom {
 	}
 	return atomsOf(expandFlags(f))
 }
+
+// onlyCalledFrom: h is an unexported repository function all of whose
+// non-test call sites (at least one) lie in fn — a part of fn factored out,
+// possibly used at several places of fn.
+func onlyCalledFrom(w *World, h, fn *ssa.Function) bool {
+	if h == nil || h.Blocks == nil || h.Pkg == nil || !strings.HasPrefix(h.Pkg.Pkg.Path(), modPath) || h == fn {
+		return false
+	}
+	if o := h.Object(); o == nil || o.Exported() {
+		return false
+	}
+	n := 0
+	for _, ci := range w.Callers(h) {
+		if strings.HasSuffix(w.fileOf(ci.Parent().Pos()), "_test.go") {
+			continue
+		}
+		if ci.Parent() != fn {
+			return false
+		}
+		n++
+	}
+	return n > 0
+}
